@@ -178,6 +178,7 @@ Section Extract.
         let inext := i + 4 + elen in
         if op_len ops l1 <? inext then NotApplicable else
         if typ =? tls_ext_server_name then
+          if elen <? 2 then NotApplicable else      (* too short to hold the list length (fix 86bfe56) *)
           dor ' (b2, l2) <- op_range ops l1 (i + 4) (i + 6) ;
           let snilen := u16 b2 in
           if elen <? snilen + 2 then NotApplicable else
@@ -353,12 +354,13 @@ Definition zeros (n : N) : bytes := repeat 0 (N.to_nat n).
 
 Fixpoint sniff_tcp_loop (script : list rd) (st : sstate) : outcome * sstate * list rd :=
   match script with
-  | [] => (TimedOut, {| s_buf := s_buf st; s_cap := s_cap st; s_dataerr := Some RsTimeout |}, [])
+  | [] => (TimedOut, {| s_buf := s_buf st; s_cap := s_cap st; s_dataerr := None |}, [])
   | e :: rest =>
       let buf := s_buf st ++ rd_data e in
       let cap := blen (s_buf st) + rd_window e in
       match rd_status e with
-      | RsTimeout => (TimedOut, {| s_buf := buf; s_cap := cap; s_dataerr := Some RsTimeout |}, rest)
+      (* an expired sniff deadline is not recorded in dataError (fix 9ef4b71); other read errors are *)
+      | RsTimeout => (TimedOut, {| s_buf := buf; s_cap := cap; s_dataerr := None |}, rest)
       | RsErr => (IoError, {| s_buf := buf; s_cap := cap; s_dataerr := Some RsErr |}, rest)
       | _ =>
           let st' := {| s_buf := buf; s_cap := cap; s_dataerr := None |} in
